@@ -248,6 +248,20 @@ class Effects(object):
                         if isinstance(base, ast.Attribute) and isinstance(base.value, ast.Name) and base.value.id == "self":
                             if base.attr not in allowed and not (cname in ("LRUTrieHeader", "LinkStoreHeader") and base.attr == "data"):
                                 extra.append("%s.%s:%d self.%s" % (cname, f.name, n.lineno, base.attr))
+            # no node object (a cursor into a store) is kept in an instance attribute:
+            # every walk owns the node it advances (C16: iterator requests are
+            # advanced in turns and must not share a cursor)
+            for f in cls.body:
+                if not isinstance(f, ast.FunctionDef):
+                    continue
+                for n in ast.walk(f):
+                    if isinstance(n, ast.Assign) and isinstance(n.value, ast.Call):
+                        fn_ = n.value.func
+                        callee = fn_.id if isinstance(fn_, ast.Name) else (fn_.attr if isinstance(fn_, ast.Attribute) else "")
+                        if callee in ("LinkStoreNode", "LRUTrieNode", "node", "root"):
+                            for t in n.targets:
+                                if isinstance(t, ast.Attribute) and isinstance(t.value, ast.Name) and t.value.id == "self":
+                                    extra.append("%s.%s:%d self.%s holds a node object shared by every walk" % (cname, f.name, n.lineno, t.attr))
             obs.append({"id": "FR-STATE(%s)" % cname, "ok": not extra, "detail": None if not extra else "RAM state outside the files: " + "; ".join(extra)})
         return obs
 
